@@ -261,7 +261,7 @@ class StateScenario(Scenario):
             op = getattr(self, "gen_" + kind)(st, rng, cfg, tgts, cfgpaths, owners)
             if op is not None:
                 op["cfg"] = c
-                if rng.random() < h["p_fault"] and op["op"] in ("set", "assign_sub", "load_tree", "lop", "dop", "ctor"):
+                if rng.random() < h["p_fault"] and op["op"] in ("set", "assign_sub", "load_tree", "loads", "lop", "dop", "ctor", "validate", "insert_item"):
                     op["faults"] = [{"seam": "callback", "nth": rng.randint(1, 3), "kind": "callback-err",
                                      "exc": rng.choice(sorted(schema.EXC))}]
                 return op
